@@ -238,3 +238,152 @@ func c02r6(c *Ctx, r *Report) {
 	}
 	r.floor("comparisons of a folded local taken from a carved rune array", nCmp, 1)
 }
+
+// c02r8: every place that folds a character of the line does it the same way.
+//
+// The pattern is lower-cased and normalised once, by the caller; each matcher folds the characters of
+// the line itself, in seven functions and eight loops. They must agree: lower-case (also beyond ASCII)
+// when the match is case-insensitive, THEN strip accents when normalisation is on, and the second step
+// must not depend on the first having been requested.
+func c02r8(c *Ctx, r *Report) {
+	l := c.L
+	r.rule("C02-R8", "E (sibling agreement of the folding pipelines)", "P1",
+		"in package algo, every normalizeRune applied to a character of the line (a value from Chars.Get or from the carved text array) receives the lower-cased character — its input passes through unicode.To/ToLower under !caseSensitive — is not itself an input of a lower-casing step, and is not conditional on caseSensitive",
+		"one loop finds a match that a sibling loop (the scorer, the shrink loop, the back-trace) cannot reproduce for accented or non-ASCII capital letters: fewer positions than pattern characters, negative scores, index out of range")
+	norm := l.Fn("algo", "normalizeRune")
+	if norm == nil {
+		r.unest("anchors", token.NoPos, nil, "anchor normalizeRune", "cannot resolve")
+		return
+	}
+	get := "(*" + modPath + "/src/util.Chars).Get"
+	toRunes := "(*" + modPath + "/src/util.Chars).ToRunes"
+	a32 := l.Fn("algo", "alloc32")
+	isLower := func(v ssa.Value) (nonASCII bool, ok bool) {
+		switch x := v.(type) {
+		case *ssa.Call:
+			switch calleeName(x.Common()) {
+			case "unicode.To", "unicode.ToLower":
+				return true, true
+			}
+		case *ssa.BinOp:
+			if x.Op == token.ADD && isConstInt(x.Y, 32) {
+				return false, true
+			}
+		}
+		return false, false
+	}
+	n := 0
+	for _, fn := range l.AllFuncs() {
+		if fn.Pkg != l.pkg("algo") {
+			continue
+		}
+		var csParam *ssa.Parameter
+		for _, p := range fn.Params {
+			if p.Name() == "caseSensitive" {
+				csParam = p
+			}
+		}
+		var pc *PathConds
+		carved := map[ssa.Value]bool{}
+		eachInstr(fn, func(in ssa.Instruction) {
+			if ex, ok := in.(*ssa.Extract); ok && ex.Index == 1 {
+				if call, ok := ex.Tuple.(*ssa.Call); ok && call.Common().StaticCallee() == a32 {
+					carved[ex] = true
+				}
+			}
+		})
+		isTextChar := func(v ssa.Value) bool {
+			for w := range backwardSlice(v, func(*ssa.CallCommon) bool { return true }, nil) {
+				if call, ok := w.(*ssa.Call); ok && (calleeName(call.Common()) == get || calleeName(call.Common()) == toRunes) {
+					return true
+				}
+				if u, ok := w.(*ssa.UnOp); ok && u.Op == token.MUL {
+					if ia, ok := u.X.(*ssa.IndexAddr); ok && carved[ia.X] {
+						return true
+					}
+				}
+			}
+			return false
+		}
+		var sites []*ssa.Call
+		eachInstr(fn, func(in ssa.Instruction) {
+			if call, ok := in.(*ssa.Call); ok && call.Common().StaticCallee() == norm && isTextChar(call.Call.Args[0]) {
+				sites = append(sites, call)
+			}
+		})
+		for _, site := range sites {
+			n++
+			if pc == nil {
+				pc = pathConds(fn)
+			}
+			key := fmt.Sprintf("%s:normalizeRune(%s)", relName(fn), site.Call.Args[0].Name())
+			// (1) input is the lower-cased character
+			lowered := false
+			for w := range backwardSlice(site.Call.Args[0], func(*ssa.CallCommon) bool { return true }, nil) {
+				if nonASCII, ok := isLower(w); ok && nonASCII {
+					lowered = true
+				}
+			}
+			// (2) not an input of a lower-casing step
+			feedsLower := false
+			eachInstr(fn, func(in ssa.Instruction) {
+				v, ok := in.(ssa.Value)
+				if !ok {
+					return
+				}
+				if _, ok := isLower(v); !ok {
+					return
+				}
+				var ops []ssa.Value
+				switch x := v.(type) {
+				case *ssa.Call:
+					ops = x.Call.Args
+				case *ssa.BinOp:
+					ops = []ssa.Value{x.X}
+				}
+				for _, op := range ops {
+					for w := range backwardSlice(op, func(*ssa.CallCommon) bool { return true }, nil) {
+						if w == ssa.Value(site) {
+							feedsLower = true
+						}
+					}
+				}
+			})
+			// (3) not conditional on caseSensitive
+			condCS := false
+			if csParam != nil {
+				for d := site.Block(); d != nil; d = d.Idom() {
+					ds := pc.At(d)
+					if len(ds) == 0 {
+						continue
+					}
+					for _, lt := range ds[0] {
+						if lt.Atom != ssa.Value(csParam) {
+							continue
+						}
+						common := true
+						for _, dj := range ds[1:] {
+							if !hasLit(dj, func(a ssa.Value, v bool) bool { return a == lt.Atom && v == lt.Val }) {
+								common = false
+							}
+						}
+						if common {
+							condCS = true
+						}
+					}
+				}
+			}
+			why := ""
+			switch {
+			case !lowered:
+				why = "its input never passed a non-ASCII lower-casing step (unicode.To / unicode.ToLower)"
+			case feedsLower:
+				why = "its result is lower-cased afterwards: accents are stripped before the case is folded"
+			case condCS:
+				why = "it runs only when the match is case-(in)sensitive"
+			}
+			r.check(why == "", key, site.Pos(), fn, "lower-case first (also beyond ASCII), then normalise, independently of caseSensitive", why)
+		}
+	}
+	r.floor("normalizeRune applied to characters of the line", n, 8)
+}
